@@ -791,6 +791,8 @@ class QvmCpu:
             self.trap(TrapCode.CANNOT_RESUME,
                       msg=f'Could not find statement to resume at addr {self.trapped_addr:08x}.')
         self.pc = stmt.start_offset
+        # the error has been handled
+        self.error_handler_active = False
 
     def _exec_errresn(self):
         # RESUME NEXT
@@ -802,6 +804,8 @@ class QvmCpu:
             self.trap(TrapCode.CANNOT_RESUME,
                       msg=f'Could not find statement to resume at addr {self.trapped_addr:08x}.')
         self.pc = stmt.end_offset
+        # the error has been handled
+        self.error_handler_active = False
 
     def _exec_exp(self):
         b = self.pop()
